@@ -413,6 +413,16 @@ func ReduceStepsMetadata(layout Layout,
 			break
 		}
 
+		// Map iteration order is random. Take the link with the smallest key
+		// id instead, so that the reduced link (whose command and byproducts
+		// end up in the summary link) is the same for the same input.
+		for keyID, linkEnv := range linksPerStep {
+			if keyID < referenceKeyID {
+				referenceLinkEnv = linkEnv
+				referenceKeyID = keyID
+			}
+		}
+
 		// Only one link, nothing to reduce, take the reference link
 		if len(linksPerStep) == 1 {
 			stepsMetadataReduced[step.Name] = referenceLinkEnv
